@@ -67,7 +67,9 @@ def generate(gen, tier):
                                          'seed': rng.randrange(10**9)}})
     for c in CYCLES:
         for none_is_leaf in (False, True):
-            cases.append({'lines': [], 'o': {'kind': 'cycle', 'via': c, 'nil': none_is_leaf}})
+            # shape of the node whose payload closes the cycle: with children, childless (arity 0), childless and nested
+            for shape in ('children', 'childless', 'nested-childless'):
+                cases.append({'lines': [], 'o': {'kind': 'cycle', 'via': c, 'nil': none_is_leaf, 'shape': shape}})
     return cases
 
 
@@ -203,6 +205,11 @@ def _cycle_oracle(o):
 
     alias_impl.ensure_registered()
     via, nil = o['via'], o['nil']
+    shape = o.get('shape', 'children')
+    childless = shape != 'children'
+
+    def wrap(t):
+        return [0, (t, 1)] if shape == 'nested-childless' else t
 
     class Box:            # weakref-able, GC-tracked holder
         def __hash__(self):
@@ -220,7 +227,8 @@ def _cycle_oracle(o):
     def build():
         box = Box()
         if via == 'meta':
-            spec = optree.tree_structure(alias_impl._Node(box, [1, (2, None)]), namespace='c14', none_is_leaf=nil)
+            spec = optree.tree_structure(wrap(alias_impl._Node(box, [] if childless else [1, (2, None)])), namespace='c14',
+                                         none_is_leaf=nil)
             box.spec = spec
         elif via == 'entries':
             class N2:
@@ -240,11 +248,11 @@ def _cycle_oracle(o):
             spec = optree.tree_structure({box: 1, 'z': None}, none_is_leaf=nil)
             box.spec = spec
         elif via == 'ddict_factory':
-            spec = optree.tree_structure(defaultdict(box, {'a': 1, 'b': None}), none_is_leaf=nil)
+            spec = optree.tree_structure(wrap(defaultdict(box, {} if childless else {'a': 1, 'b': None})), none_is_leaf=nil)
             box.spec = spec
         elif via == 'nt_class':
-            NT = namedtuple('NT', ['a', 'b'])
-            spec = optree.tree_structure(NT(1, None), none_is_leaf=nil)
+            NT = namedtuple('NT', [] if childless else ['a', 'b'])
+            spec = optree.tree_structure(wrap(NT() if childless else NT(1, None)), none_is_leaf=nil)
             NT.spec = spec
             NT.box = box
         elif via == 'iter':
@@ -253,10 +261,12 @@ def _cycle_oracle(o):
             next(it)
             lst.append(it)
         elif via == 'child':
-            spec = optree.tree_structure([alias_impl._Node(box, [1, None])], namespace='c14', none_is_leaf=nil)
+            spec = optree.tree_structure([wrap(alias_impl._Node(box, [] if childless else [1, None]))], namespace='c14',
+                                         none_is_leaf=nil)
             box.spec = spec.child(0)
         elif via == 'compose':
-            inner = optree.tree_structure(alias_impl._Node(box, [1, None]), namespace='c14', none_is_leaf=nil)
+            inner = optree.tree_structure(wrap(alias_impl._Node(box, [] if childless else [1, None])), namespace='c14',
+                                          none_is_leaf=nil)
             outer = optree.tree_structure([0, 0], none_is_leaf=nil, namespace='c14')
             box.spec = outer.compose(inner)
         elif via == 'accessor':
@@ -268,8 +278,8 @@ def _cycle_oracle(o):
     r = build()
     gc.collect()
     if r() is not None:
-        return [{'key': f'cycle-not-collected-{via}',
-                 'what': f'a treespec in a reference cycle through {via} is not reclaimed by gc.collect()'}]
+        return [{'key': f'cycle-not-collected-{via}-{shape}',
+                 'what': f'a treespec in a reference cycle through {via} (node shape: {shape}) is not reclaimed by gc.collect()'}]
     return []
 
 
